@@ -133,28 +133,33 @@ structure LinState where
   addrs : List (Nat × Nat)           -- (range index, address) in allocation order
 deriving Repr
 
+/-- the `weight_compression_config` clause: address of the first allocated tensor with an equal
+    config (asserting equal scale configs), else the running total -/
+def linWccAddr (st : LinState) (t : LTens) : Except Err Nat :=
+  if t.wcc != 0 then
+    match st.allocated.find? (fun p => p.1.wcc == t.wcc) with
+    | some p => if p.1.scc == t.scc then .ok p.2 else .error .assert_
+    | none => .ok st.total
+  else .ok st.total
+
+/-- the LUT clause: address of the first allocated equivalent tensor, else unchanged -/
+def linLutAddr (st : LinState) (t : LTens) (a1 : Nat) : Nat :=
+  if t.lut then
+    match st.allocated.find? (fun p => p.1.eqv == t.eqv) with
+    | some p => p.2
+    | none => a1
+  else a1
+
 def linearStep (lrSizes : List Nat) (tensOf : Nat → List LTens) (gran : Nat) (st : LinState) (t : LTens) :
     Except Err LinState :=
   if st.addrs.any (fun p => p.1 == t.lr) then .ok st else    -- `tens in allocated_tensors`
   match lrSizes[t.lr]? with
   | none => .error .index
   | some size =>
-    let a0 := st.total
-    -- weight_compression_config clause
-    let r1 : Except Err Nat :=
-      if t.wcc != 0 then
-        match st.allocated.find? (fun p => p.1.wcc == t.wcc) with
-        | some p => if p.1.scc == t.scc then .ok p.2 else .error .assert_
-        | none => .ok a0
-      else .ok a0
-    match r1 with
+    match linWccAddr st t with
     | .error e => .error e
     | .ok a1 =>
-      let a2 := if t.lut then
-          match st.allocated.find? (fun p => p.1.eqv == t.eqv) with
-          | some p => p.2
-          | none => a1
-        else a1
+      let a2 := linLutAddr st t a1
       let allocated' := st.allocated ++ (tensOf t.lr).map (fun x => (x, a2))
       if a2 == st.total then
         if gran == 0 then .error .zerodiv
